@@ -3,4 +3,4 @@ from . import latfam, util
 
 globals().update(latfam.module('C09', util.theorems('C09'),
     'contexts as C03 (EXH(10) in the thorough tier); upset()/downset() of every concept (sampled beyond 64), unions for all pairs (<=8 concepts quick / 12 thorough, else sampled) and multisets with repeats/comparable members, interleaved and abandoned traversals; non-trivial = seeds comparable or repeated in a lattice with a concept having >=2 upper neighbours',
-    extra_targets=[], partial='', exh=(9, 10)))
+    extra_targets=['Tie/Common.vo'], partial='', exh=(9, 10)))
